@@ -72,4 +72,18 @@ package functional
 //@ func EvalReduceFn(reduceFn, rows)
 //@   opt nosafety
 //@   opt assumeframe
+// ... and a value is dropped as a duplicate only after comparing it (Equals) with the values seen under its hash: the
+// scan of the bucket exists and compares (two different constants can share a hash).
+//@   guard call Equals in loop 3: true
 //@   loop 1 atback distinct && tuples != prev(tuples) ==> head.Hash() in seen && len(seen[head.Hash()]) > 0 && sameC(seen[head.Hash()][len(seen[head.Hash()]) - 1], head)
+
+// ---- C20 / C01: instantiating an atom --------------------------------------------------------------------------
+// atomUnder(a, s): the atom a with the substitution s applied and its function expressions evaluated (ABSTRACT: the
+// meaning of EvalAtom; its body is not verified). Callers that must instantiate a rule head are checked to store THIS
+// atom, not the head as written.
+//@ spec func atomUnder(a ast.Atom, s ast.Subst) ast.Atom
+//@ func EvalAtom(a, subst)
+//@   trusted
+//@   modifies nothing
+//@   ensures err == nil ==> result == atomUnder(a, subst)
+
